@@ -21,6 +21,8 @@
 (*                 dlen = the Length entry of the Encrypt dictionary (-1 none), canonOpens = the same  *)
 (*                 attempt succeeds when Length has its canonical form CanonLength                     *)
 (*    ev = "env"   lopdf's writer / loader did not transport the document (not judged)               *)
+(*  every record: hist = the predefined one-byte encodings the recording process converted text to     *)
+(*  (Document::encode_text) before the judged computation, in call order                               *)
 EXTENDS SecurityAlgorithms, Json, IOUtils, TLC
 
 Recs == ndJsonDeserialize(IOEnv.TRACE)
@@ -33,6 +35,11 @@ PwBytes(segs) == LET F[i \in 0..Len(segs)] == IF i = 0 THEN 0 ELSE F[i - 1] + se
 \* the 127-byte cut of Algorithm 2.A (b) falls inside a multi-byte character of the password (split = 1 on the
 \* 95-byte segment, see MC_SecurityAlgorithms!SplitSegs)
 SplitAtCut(segs) == Len(segs) >= 3 /\ segs[2].split = 1
+\* a password with a character whose code in the encoding the process converted text to FIRST differs from its
+\* PDFDocEncoding code (hist = the one-byte encodings used before the judged computation, in call order)
+SegsSensitive(e, segs) == \E i \in 1..Len(segs) : TableSensitive(e, segs[i].txt)
+HistoryClass(r, pws) == r.cfg.R <= 4 /\ Len(r.hist) > 0 /\ r.hist[1] \in OneByteEncodings \ {"PDFDoc"}
+                        /\ \E k \in 1..Len(pws) : SegsSensitive(r.hist[1], pws[k])
 RS(r) == "R" \o ToString(r.cfg.R)
 
 AlgOf(obs, R) ==
@@ -75,7 +82,9 @@ JudgeObs(r) ==
         generic == r.obs \o "." \o RS(r) \o (IF r.kind = "" THEN "" ELSE "." \o m \o "." \o r.kind)
                          \o (IF r.role = "" THEN "" ELSE "." \o r.role)
         sig ==
-            IF r.obs = "O" /\ R <= 4 /\ Len(r.owner) = 0 /\ Len(r.user) # 0
+            IF HistoryClass(r, <<r.user, r.owner>>) /\ r.obs \notin {"objkey", "ct"}
+            THEN "password-encoding.history.R234"   \* Algorithm 2 (a): PDFDocEncoding of the text, whatever was converted before
+            ELSE IF r.obs = "O" /\ R <= 4 /\ Len(r.owner) = 0 /\ Len(r.user) # 0
             THEN "O.R234.owner-absent"            \* Algorithm 3 (a): no owner password => use the user password
             ELSE IF r.obs \in {"ct", "pt"} /\ r.kind = "str.streamdict" /\ IsoSubject(r.kind, r.cfg.meta)
             THEN "streamdict.string"              \* a string in a stream dictionary is a string
@@ -121,6 +130,10 @@ JudgeOpen(r) ==
                      /\ ((expU /\ r.authU = "no") \/ (expO /\ r.authO = "no") \/ ~opened \/ bads # {})
              THEN "length." \o LenClass(r.cfg, r.dlen)                       \* Table 20: the entry does not apply / has its default
              ELSE IF "panic" \in {r.authU, r.authO, r.res} THEN "panic." \o cfgs
+             ELSE IF HistoryClass(r, <<r.user, r.owner, r.try>>) /\ "panic" \notin {r.authU, r.authO, r.res}
+                     /\ (((r.authU = "yes") # expU /\ r.authU # "na") \/ ((r.authO = "yes") # expO /\ r.authO # "na")
+                         \/ (exp /\ ~opened) \/ (~exp /\ opened))
+             THEN "password-encoding.history.R234"                          \* Algorithm 2 (a) is a function of the text alone
              ELSE IF R >= 5 /\ SplitAtCut(r.try) /\ exp
                      /\ ((expU /\ r.authU = "no") \/ (expO /\ r.authO = "no") \/ (r.authU = "na" /\ ~opened))
              THEN "password-cut-in-character.R56"                           \* Algorithm 2.A (b) truncates the BYTE string
